@@ -67,6 +67,12 @@ Theorem tokens_valid_spec : forall (lens : list N) (ntypes nmods : N) (ml : bool
   exists g, group5 data = Some g /\ TokensValid lens ntypes nmods ml None (decode 0 0 g).
 Proof. exact Proofs.tokens_valid_spec. Qed.
 
+(** OPEN FINDING (recorded, not repaired: a unit test pins the convention).  The "whole document" range of
+    [LuaDocument::get_document_lsp_range] — returned by formatting, incoming calls of a chunk-level caller,
+    goto-definition of a module file — is NEVER inside its document: its end line does not exist. *)
+Theorem document_lsp_range_refuted : forall (t : text), range_in_doc (line_lens t) (document_lsp_range t) = false.
+Proof. exact Proofs.document_lsp_range_refuted. Qed.
+
 (** non-vacuity: a comment token with a nested tag and a same-start duplicate is split around the inner token;
     the checkers accept a valid and reject an invalid instance of every kind *)
 Example build_example :
